@@ -15,7 +15,7 @@ import (
 // resolution of a branch on them must satisfy the specification.
 func c05R9(h H) {
 	r := h.r
-	r.Rule("R9", "selection tables: for every pool of 1–4 backends and every availability mask, evaluated abstractly (E10) — first returns the earliest available backend; hostByHashing returns the first available one in cyclic order from hash(key) mod n; least_conn returns an available backend whose in-flight count is minimal among the available ones (for every outcome of its random tie-break); random returns an available one (for every outcome of its draws); round_robin returns the next available one after its counter and, with all backends available, n consecutive selections return n different backends; each returns nil exactly when no backend is available", 5)
+	r.Rule("R9", "selection tables: for every pool of 1–5 backends (1–3 for least_conn, random and the key policies; 1–7 and 1–4 in the thorough tier) and every availability mask including backends at their connection cap, evaluated abstractly (E10) — first returns the earliest available backend; hostByHashing returns the first available one in cyclic order from hash(key) mod n; least_conn returns an available backend whose in-flight count is minimal among the available ones (for every outcome of its random tie-break); random returns an available one (for every outcome of its draws); round_robin returns the next available one after its counter and, with all backends available, n consecutive selections return n different backends; each returns nil exactly when no backend is available", 5)
 	hostT := func(fn *ssa.Function, param int) types.Type {
 		return underlying(fn.Params[param].Type()).(*types.Slice).Elem().(*types.Pointer).Elem()
 	}
@@ -195,7 +195,7 @@ func c05R9(h H) {
 	// first
 	if fn := get("(*First).Select"); fn != nil {
 		bad, nrun := "", 0
-		for n := 1; n <= 5 && bad == ""; n++ {
+		for n := 1; n <= tb(5, 7) && bad == ""; n++ {
 			for _, c := range hostCases(n) {
 				c := c
 				av := c.avail
@@ -222,7 +222,7 @@ func c05R9(h H) {
 	// hostByHashing
 	if fn := get("hostByHashing"); fn != nil {
 		bad, nrun := "", 0
-		for n := 1; n <= 5 && bad == ""; n++ {
+		for n := 1; n <= tb(5, 7) && bad == ""; n++ {
 			for _, c := range hostCases(n) {
 				c := c
 				av := c.avail
@@ -246,7 +246,7 @@ func c05R9(h H) {
 	// least_conn
 	if fn := get("(*LeastConn).Select"); fn != nil {
 		bad, nrun := "", 0
-		for n := 1; n <= 3 && bad == ""; n++ {
+		for n := 1; n <= tb(3, 4) && bad == ""; n++ {
 			for _, av := range masks(n) {
 				for _, rk := range weakOrders(n) {
 					c := hostCase{avail: av, rank: rk}
@@ -283,7 +283,7 @@ func c05R9(h H) {
 	// random
 	if fn := get("(*Random).Select"); fn != nil {
 		bad, nrun := "", 0
-		for n := 1; n <= 3 && bad == ""; n++ {
+		for n := 1; n <= tb(3, 4) && bad == ""; n++ {
 			for _, av := range masks(n) {
 				c := hostCase{avail: av}
 				env := newEnv(c, 0)
@@ -311,7 +311,7 @@ func c05R9(h H) {
 	if fn := get("(*RoundRobin).Select"); fn != nil {
 		bad, nrun := "", 0
 		polT := fn.Params[0].Type().(*types.Pointer).Elem()
-		for n := 1; n <= 5 && bad == ""; n++ {
+		for n := 1; n <= tb(5, 7) && bad == ""; n++ {
 			for _, c := range hostCases(n) {
 				c := c
 				av := c.avail
@@ -420,7 +420,7 @@ func c05R9(h H) {
 		ip6 := func(port string) aval { return mkReq(t, strOf(atom{lit: "["}, atom{sym: "ip6"}, atom{lit: "]:" + port}), astr("/"), nil) }
 		other := mkReq(t, strOf(atom{sym: "other"}, atom{lit: ":1000"}), astr("/"), nil)
 		bad, nrun := "", 0
-		for n := 2; n <= 3 && bad == ""; n++ {
+		for n := 2; n <= tb(3, 4) && bad == ""; n++ {
 			c := hostCase{avail: allUp(n)}
 			for _, pair := range [][2]aval{{ip4("1000"), ip4("2000")}, {ip6("1000"), ip6("2000")}} {
 				env, _ := hashEnv(c)
@@ -447,7 +447,7 @@ func c05R9(h H) {
 	if fn := get("(*URIHash).Select"); fn != nil {
 		t := reqT(fn, 2)
 		bad, nrun := "", 0
-		for n := 2; n <= 3 && bad == ""; n++ {
+		for n := 2; n <= tb(3, 4) && bad == ""; n++ {
 			c := hostCase{avail: allUp(n)}
 			env, _ := hashEnv(c)
 			hosts := mkHosts(hostT(fn, 1), c)
@@ -471,7 +471,7 @@ func c05R9(h H) {
 		t := reqT(fn, 2)
 		bad, nrun := "", 0
 		names := newVals([]aval{astr("X-Key")}, types.Typ[types.String])
-		for n := 2; n <= 3 && bad == ""; n++ {
+		for n := 2; n <= tb(3, 4) && bad == ""; n++ {
 			c := hostCase{avail: allUp(n)}
 			env, _ := hashEnv(c)
 			hosts := mkHosts(hostT(fn, 1), c)
@@ -503,7 +503,7 @@ func c05R9(h H) {
 		upT := fn.Params[0].Type().(*types.Pointer).Elem()
 		first := get("(*First).Select")
 		bad, nrun := "", 0
-		for n := 1; n <= 3 && bad == ""; n++ {
+		for n := 1; n <= tb(3, 4) && bad == ""; n++ {
 			for _, av := range masks(n) {
 				for _, withPolicy := range []bool{false, true} {
 					if withPolicy && first == nil {
